@@ -1,3 +1,4 @@
+import MaestroVerif.Lemmas.ConductorLemmas
 import MaestroVerif.Lemmas.ExecDemo
 import MaestroVerif.Gen.ExecTables
 
@@ -65,5 +66,15 @@ theorem C20_handled_are_active : ∀ s ∈ handledStates, terminal (some s) = tr
 /-- the query codes the code distinguishes are ERROR (abort) and OK (apply the
 answers); every other code (NOJOBS) applies no answer — as in the model's `poll` -/
 theorem C20_codes_distinguished : distinguishedCodes = [.ERROR, .OK] := by decide
+
+/-- **a failed status query leaves the files alone too** (`Model/Conductor.lean`): when
+`execute_ready_steps` raises, the loop neither pickles the graph nor writes the status table in
+that iteration - the snapshot and `status.csv` keep the state of the last successful poll -/
+theorem C20_error_leaves_files (cfg : Cfg) (s : Conductor.CS) (it : Conductor.Iter)
+    (h : (Conductor.iter cfg s it).2 = .raised) :
+    (Conductor.iter cfg s it).1.saved = s.saved ∧
+    Conductor.CEv.pickle ∉ Conductor.iterTrace it.lock it.acquire (Conductor.iter cfg s it).2 ∧
+    Conductor.CEv.writeStatus ∉ Conductor.iterTrace it.lock it.acquire (Conductor.iter cfg s it).2 :=
+  Conductor.error_leaves_disk cfg s it h
 
 end MaestroVerif.C20
